@@ -224,6 +224,21 @@ pub const TABLE: &[D] = &[
         rc(r#"r"\s+""#, 2, Cb::Skip, "Ws"),
     ], frags: &["a", "abc", "1", "12", ":", "::", ":::", " ", "\n", "a:", "é"] },
 
+    // long literals that no regex shadows: from the branching point on, their tails are chains of single-byte,
+    // non-accepting, non-branching states (the code generator may batch them); prefixes of them lex to errors one-shot
+    D { name: "Pem", utf8: true, attrs: &[], skips: &[(r#"r"[ \n]+""#, 2, "")], pats: &[
+        t(r#""-----BEGIN-----""#, 30, "Begin"), t(r#""-----END-----""#, 26, "End"), t(r#""<![CDATA[""#, 18, "CData"), t(r#""]]>""#, 6, "CEnd"),
+        r(r#""[0-9]+""#, 2, "Num"), t(r#""-""#, 2, "Dash"), t(r#""--""#, 4, "DashDash"), tx(r#""@interface""#, 20, Cb::Unit, "ignore(case)", "Iface"),
+        r(r#""@[a-c]""#, 4, "At"), t(r#""0123456789abcdefghij""#, 40, "Alnum20"),
+    ], frags: &["-----BEGIN-----", "-----END-----", "-----B", "-----BEGIN", "-----BEGIN----", "-----E", "-----", "--", "-", "<![CDATA[", "<![CDATA", "<![", "<", "]]>", "]]",
+               "12", " ", "\n", "@interface", "@INTERFACE", "@inter", "@a", "@", "0123456789abcdefghij", "0123456789abcdefghi", "0123456789a", "01234567"] },
+
+    D { name: "Magic", utf8: false, attrs: &[], skips: &[], pats: &[
+        t(r#"b"\x89PNG\r\n\x1a\n""#, 16, "Png"), t(r#"b"\xff\xd8\xff\xe0\x00\x10JFIF\x00""#, 24, "Jfif"), t(r#"b"\xff\xd8""#, 4, "Soi"), t(r#"b"GIF89a""#, 12, "Gif"),
+        r(r#"b"\x00+""#, 2, "Zeros"), t(r#"b"\xff""#, 2, "Ff"), t(r#"b"\x7fELF\x02\x01\x01\x00\x00\x00\x00\x00\x00\x00\x00\x00""#, 32, "Elf"), r(r#"b"[\x01-\x08]""#, 1, "Low"),
+    ], frags: &["x:89504e470d0a1a0a", "x:89504e470d0a1a", "x:89504e47", "x:89", "x:ffd8ffe000104a46494600", "x:ffd8ffe000104a464946", "x:ffd8ffe0", "x:ffd8", "x:ff", "GIF89a", "GIF89", "GIF",
+               "x:00", "x:0000", "x:7f454c46020101000000000000000000", "x:7f454c460201010000000000000000", "x:7f454c4602", "x:7f", "x:01", "x:41"] },
+
     // ---- stateful definitions (`extras = Ctr`): a streaming consumer carries the counter from lexer to lexer; every
     // stateful callback must run exactly once per final match, whatever the chunking (oracle X1)
     D { name: "Lines", utf8: true, attrs: &[], skips: &[(r#"r"[ \t]+""#, 2, "")], pats: &[
